@@ -282,6 +282,96 @@ pub fn log_case(c: &LogCase, shm: &Shm) {
     }
 }
 
+/// Damage one payload byte of every fragment of every multi-fragment record (one at a time):
+/// whatever the reader returns must be a subsequence of the appended records, in order, and must
+/// not contain the damaged record — never a record that was not appended.
+pub fn log_corruption_case(c: &LogCase, shm: &Shm, clause: &str) {
+    let n = c.lens.len();
+    let fs = new_fs();
+    if write_log(&fs, &c.lens, &vec![false; n], 0, false).is_err() {
+        return;
+    }
+    let want: Vec<Vec<u8>> = (0..n).map(|i| payload(i, c.lens[i])).collect();
+    let (frags, _) = layout(&c.lens);
+    let img = fs.image();
+    let data = img.get(&log_path()).cloned().unwrap_or_default();
+    for (ri, rec) in frags.iter().enumerate() {
+        if rec.len() < 2 {
+            continue;
+        }
+        let mut start = if ri == 0 { 0 } else { *frags[ri - 1].last().unwrap() };
+        for (fi, &end) in rec.iter().enumerate() {
+            // the fragment occupies [start', end) where start' skips a possible trailer: its
+            // payload ends at `end`; damage the last payload byte and one in the middle
+            let frag_start = {
+                let left = B - start % B;
+                if left < H {
+                    start + left
+                } else {
+                    start
+                }
+            };
+            let payload_start = frag_start + H;
+            if end > payload_start {
+                for off in [payload_start, payload_start + (end - payload_start) / 2, end - 1] {
+                    let mut d2 = data.clone();
+                    d2[off] ^= 0x40;
+                    let mut im = Image::new();
+                    im.insert(log_path(), d2);
+                    let dirs: BTreeSet<PathBuf> = [PathBuf::from("/log"), PathBuf::from("/")].into_iter().collect();
+                    let tfs = VerifFs::from_image(&im, &dirs);
+                    shm.add(C_CASES, 1);
+                    shm.add(C_NONTRIVIAL, 1);
+                    shm.add(C_USER + 4, 1);
+                    let d = || json!({"record_lengths": c.lens, "kind": "corrupted_fragment", "record": ri, "fragment": fi, "byte": off});
+                    match read_all(&tfs, n + 4) {
+                        Ok(got) => {
+                            // subsequence of `want` without record ri
+                            let mut wi = 0usize;
+                            let mut ok = true;
+                            for g in got.iter() {
+                                while wi < n && (&want[wi] != g || wi == ri) {
+                                    wi += 1;
+                                }
+                                if wi == n {
+                                    ok = false;
+                                    break;
+                                }
+                                wi += 1;
+                            }
+                            if !ok {
+                                found(
+                                    shm,
+                                    clause,
+                                    &format!("fragment {} of record {} damaged at byte {}: the reader returned {} but appended were {} (a returned record was never appended, or the damaged one was delivered)", fi, ri, off, short(&got), short(&want)),
+                                    d(),
+                                );
+                                return;
+                            }
+                        }
+                        Err(_) => {} // an error is an acceptable answer to corruption
+                    }
+                }
+            }
+            start = end;
+        }
+    }
+}
+
+pub fn log_corruption_cases() -> Vec<LogCase> {
+    let mut v = vec![];
+    for lens in [
+        vec![10usize, 40_000, 9],
+        vec![B - H - 3, 70_000, 20],
+        vec![5, 2 * (B - H), 7],
+        vec![40_000, 40_000],
+        vec![100, 3 * B + 11, 0, 50],
+    ] {
+        v.push(LogCase { lens, split: 0, truncations: false, stop_between_fragments: false });
+    }
+    v
+}
+
 pub fn log_cases(thorough: bool) -> Vec<LogCase> {
     let mut l2s: Vec<usize> = vec![];
     if thorough {
